@@ -388,6 +388,16 @@ Example ex_clone_function_inherits :
   option_map oassum (snd (exec (CloneIndexed 0 None None []) clone_example_store)) = Some [("positive", true)].
 Proof. vm_compute. repeat split; reflexivity. Qed.
 
+(* signed facts: a fact known to be FALSE is inherited just like one known to be true *)
+Example ex_clone_signed_facts :
+  let st := run [NewSymbol (Some "d") dzero None [("zero", false)];
+                 NewIndexed (Some "w") dzero None [("complex", true); ("real", false)]] (mkstore [] []) in
+  option_map oassum (snd (exec (CloneSymbol 0 None None (Some "1") []) st)) = Some [("zero", false)] /\
+  option_map oassum (snd (exec (CloneFunction 0 None None None []) st)) = Some [("zero", false)] /\
+  option_map oassum (snd (exec (CloneIndexed 1 None None []) st)) = Some [("complex", true); ("real", false)] /\
+  option_map oassum (snd (exec (CloneSymbol 1 None None None [("real", true)]) st)) = Some [("real", true)].
+Proof. vm_compute. repeat split; reflexivity. Qed.
+
 (* ---------------------------------------------------------------------------------------- *)
 (* printing                                                                                   *)
 
